@@ -34,6 +34,7 @@ type txnProfile struct {
 	nontriv   func(ops []TOp, ob tObs) bool
 	classify  func(ops []TOp, ob tObs) string
 	seed      func(tg *txnGen) []TOp // optional first transaction populating the database
+	extra     func(o opts, g *gen.G, syms *val.Syms, w *emit.Writer) error // further cases of the same case type
 }
 
 func runTxnHistories(o opts, p txnProfile) error {
@@ -67,7 +68,9 @@ func runTxnHistories(o opts, p txnProfile) error {
 		for ti := 0; ti < nt; ti++ {
 			ops := tg.txn(p.maxOps)
 			if ti == 0 && p.seed != nil && g.Chance(0.8) {
-				ops = p.seed(tg)
+				if sops := p.seed(tg); len(sops) > 0 {
+					ops = sops
+				}
 			}
 			before, beforeRefs := st, refs
 			ob := lab.run(ops)
@@ -162,6 +165,11 @@ func runTxnHistories(o opts, p txnProfile) error {
 		w.Add(emit.Case{Term: term, JSON: map[string]interface{}{"schema": sc.JSON(), "transactions": txnJ}, Key: term,
 			Nontrivial: nontrivial, Class: fmt.Sprintf("txns%d", nt), Oracle: oracle})
 	}
+	if p.extra != nil {
+		if err := p.extra(o, g, syms, w); err != nil {
+			return err
+		}
+	}
 	return w.Flush()
 }
 
@@ -217,6 +225,16 @@ func c03Witnesses(o opts) error {
 	if st, _, err := lab.state(); err == nil {
 		if r, ok := st["T"][u2]; ok && r["n"].A.I != big {
 			known["13"] = 1
+		}
+	}
+	// class 4: the number of elements of a set or map is not checked against the column's min / max
+	if blab, err := newTxnLab(dyn.Schema{Name: "C03b", Tables: []dyn.Table{{Name: "T", IsRoot: true, Cols: []val.Col{
+		{Name: "name", K: 'a', KT: 's'}, {Name: "s", K: 's', KT: 's', Min: 1, Max: 2}}}}}); err == nil {
+		ob := blab.run([]TOp{{Kind: "insert", Table: "T", UUID: gen.UUIDn(3), Row: map[string]val.Val{"name": val.VA(val.Str("b")),
+			"s": val.VS(val.Str("x"), val.Str("y"), val.Str("z"))}}})
+		ob2 := blab.run([]TOp{{Kind: "update", Table: "T", Where: []Cond{}, Row: map[string]val.Val{"s": val.VS()}}})
+		if (ob.Committed && !hasError(ob)) || (ob2.Committed && !hasError(ob2)) {
+			known["14"] = 1
 		}
 	}
 	return emit.PatchStats(o.out, "C03", func(extra map[string]interface{}) { extra["oracle_known"] = known })
